@@ -16,7 +16,7 @@ from .common import COQ
 
 W = 2**256
 MODEL_FILES = ["C14MM/MemSym.v", "C14MM/GenCopy.v", "C14MM/CopyModel.v"]
-PROOF_FILES = ["C14MM/MemSymProofs.v", "C14MM/CopyProofs.v", "C14MM/PropsMemMerge.v"]
+PROOF_FILES = ["C14MM/MemSymProofs.v", "C14MM/CopyProofs.v", "C14MM/LowerDload.v", "C14MM/PropsMemMerge.v"]
 IMPORTS = ("From Coq Require Import NArith.\nFrom Verif Require Import Base.Word256 C14MM.MemSym.\nOpen Scope Z_scope.\n"
            "Definition bz (b : bool) : Z := if b then 1 else 0.\n")
 
